@@ -67,9 +67,10 @@ FUNCS = {
     "now": [((), "datetime")],
     "mindatetime": [((), "datetime")],
     "maxdatetime": [((), "datetime")],
-    "round": [(("float",), "float")],
-    "floor": [(("float",), "float")],
-    "ceiling": [(("float",), "float")],
+    # (an integer argument is promoted: the result is still a decimal number)
+    "round": [(("float",), "float"), (("int",), "float")],
+    "floor": [(("float",), "float"), (("int",), "float")],
+    "ceiling": [(("float",), "float"), (("int",), "float")],
     "geo.distance": [(("geo", "geo"), "float")],
     "geo.length": [(("geo",), "float")],
     "geo.intersects": [(("geo", "geo"), "bool")],
